@@ -51,7 +51,7 @@ Fin == [nbursts |-> Len(Bursts(c)),
         hdrBtf |-> Bursts(c)[c.p + 1].btf,
         hdrPad |-> Pad(c.L, c.rate, c.conf),
         started |-> nstart, ended |-> nend,
-        blocks |-> Handed, dataOk |-> TRUE, crc32Ok |-> TRUE]
+        blocks |-> Handed, dataOk |-> TRUE, crc32Ok |-> TRUE, cc |-> 1, ccs |-> [k \in 1..Len(Bursts(c)) |-> Bursts(c)[k].cc]]
 
 TrackerProperty == why = "ok"                          \* C08 monitor along the way
 GeneratedIsReceived == Done => FinWhy(c, Fin) = "ok"   \* the C07 clauses
